@@ -257,9 +257,10 @@ def run(ctx):
         else:
             ctx.violated(r4, (R, "<module>"), cache_name, f"the module cache is rebound by {sorted(writers)}", expected="import_root_histogram, clear_filecache")
         # key
-        keyed = [n for n in ast.walk(irh.node) if isinstance(n, ast.Assign) and isinstance(n.targets[0], ast.Subscript) and A.dotted(n.targets[0].value) == "filecache"]
+        irh_nodes = list(repo.walk_deep(irh, depth=2))  # the function and the helpers of its module it hands the cache work to
+        keyed = [n for n in irh_nodes if isinstance(n, ast.Assign) and isinstance(n.targets[0], ast.Subscript) and (A.dotted(n.targets[0].value) or "") in ("filecache", cache_name)]
         key_txt = A.unparse(keyed[0].targets[0].slice) if keyed else ""
-        key_def = next((A.unparse(n.value) for n in ast.walk(irh.node) if isinstance(n, ast.Assign) and any(A.dotted(t) == key_txt for t in n.targets)), "")
+        key_def = next((A.unparse(n.value) for n in irh_nodes if isinstance(n, ast.Assign) and any(A.dotted(t) == key_txt for t in n.targets)), "")
         identity = any(w in key_def for w in ("st_mtime", "getmtime", "st_ctime", "digest", "sha", "md5"))  # evidence of MODIFICATION: a file rewritten in place keeps its path, device and inode
         pm = A.parent_map(parse.node)
         clears = [c for c in A.calls_in(parse.node) if A.call_attr(c) == "clear_filecache" or (A.call_attr(c) == "clear" and cache_name in A.unparse(c))]
